@@ -53,3 +53,30 @@ Theorem C01_meaning : forall F is_bound jm,
   forall x e, seval F e (trans is_bound jm x) = peval F is_bound jm e x.
 Proof. exact trans_meaning. Qed.
 Print Assumptions C01_meaning.
+
+(** ** the printed text re-reads as the intended tree (token level) *)
+From PQL Require Import Spec.SqlRead Proofs.ReadBack.
+
+(** For every expression the parser accepts and the writer prints (no parameters or lets in
+    scope, no pass-through function called NOT or CASE -- known finding F1), the printed pieces,
+    viewed as SQL tokens ([ptoks]: template text through the dialect's lexer, identifiers, strings
+    and numbers as single tokens), are read by the reference reader of coq/Spec/SqlParse.v -- the
+    SQL dialect's own precedence, OR < AND < NOT < comparison/IS NULL/IN < || < + - < * / % <
+    sign < x[i] -- as exactly [trans e], the tree whose value C01_meaning proves equal to the PQL
+    expression's, with no token left over; for every sufficiently large reader fuel.  By
+    induction over the writer: every operand position is written closed (atom, signed operand or
+    parenthesised), every template (coalesce, CASE WHEN, IS NULL, NOT, count() FILTER, ||, IN,
+    LOWER/UPPER, x[i]) re-reads as its tree. *)
+Theorem C01_printed_expression_rereads : forall c, c_scope c = [] -> forall srclen f ts e rest ps,
+  p_expr srclen f ts = (Some e, rest, []) -> names_ok e -> wexpr c e = Ok ps ->
+  exists toks, ptoks ps = Some toks /\
+    Conv (fun fuel => sx fuel 0 toks) (trans (fun _ => false) (mode_eqb (c_mode c) ModeJoin) e, []).
+Proof. exact printed_expression_rereads. Qed.
+Print Assumptions C01_printed_expression_rereads.
+
+(** the same in every operand position: as a full expression, as a closed operand of an
+    operator, as the base of an index or operand of a sign *)
+Theorem C01_operand_shapes : forall c, c_scope c = [] -> forall e, wfr e -> forall w ps, wx c w e = Ok ps ->
+  exists ts, ptoks ps = Some ts /\ Shape w ts (trans (fun _ => false) (mode_eqb (c_mode c) ModeJoin) e).
+Proof. exact wx_reads. Qed.
+Print Assumptions C01_operand_shapes.
